@@ -35,7 +35,11 @@ func valOf(rv reflect.Value, lv int) *val.Val {
 		panic(fmt.Errorf("val: Of(nil %v)", rv))
 	}
 	rt := rv.Type()
-	for rv.Kind() == reflect.Interface || rv.Kind() == reflect.Pointer {
+	for n := 0; rv.Kind() == reflect.Interface || rv.Kind() == reflect.Pointer; n++ {
+		if n > maxLevel {
+			// a pointer / interface chain that leads back to itself never ends
+			panic("max nested depth exceeded")
+		}
 		rv = rv.Elem()
 		rt = rv.Type()
 	}
